@@ -949,6 +949,9 @@ func runScript(c *caseCtx, spec *scriptSpec) (out scriptOutcome) {
 				}) > 0
 				if stoppedSeen && e.Registry.GetPID("scripted", "a") == nil {
 					fail("context of %v never became done although the actor has stopped and is unregistered: nothing can signal it any more", p.it)
+				} else if lostRequestProof(e, pid, rec, wd) {
+					aborted = true
+					fail("context of %v never became done: the request was lost. Two messages sent after it, the second only after the first had been handled, were both handled by the actor, so the batch that held the request has been processed to its end (restart and replay included) and the actor is still running with nothing left that could stop it", p.it)
 				} else {
 					aborted = true
 					res.inconclusive("context of %v not done within the watchdog and the actor has not been seen stopping", p.it)
@@ -1308,4 +1311,21 @@ func bystanderOK(e *actor.Engine, wd time.Duration) bool {
 	case <-time.After(wd):
 		return false
 	}
+}
+
+
+// lostRequestProof decides on state that a stop request can no longer take
+// effect. S1 is sent after the request; once S1 has been handled S2 is sent, so
+// S2 sits in a later inbox batch than the request. The worker finishes a batch
+// (crash, restart delay and replay of the restart buffer included) before it
+// pops the next one, so when S2 is handled by Receive the request's batch is
+// over and the actor has survived it.
+func lostRequestProof(e *actor.Engine, pid *actor.PID, rec *recorder, wd time.Duration) bool {
+	for _, id := range []int{-21, -22} {
+		e.Send(pid, &uMsg{Kind: itMsg, ID: id})
+		if !waitFor(wd/2, func() bool { return logHas(rec.snapshot(), "msg", id) }) {
+			return false
+		}
+	}
+	return true
 }
